@@ -429,8 +429,9 @@ impl SoVersion {
                     if i >= comps.len() - 1 {
                         break;
                     }
-                    if let Some(pre) = comp.rfind(|c: char| !c.is_ascii_digit()) {
-                        if let Ok(pre) = comp[pre + 1..].parse() {
+                    if let Some((pre, sep)) = comp.char_indices().rev().find(|(_, c)| !c.is_ascii_digit()) {
+                        // `pre` is the start of the last non-digit character, which may be longer than one byte
+                        if let Ok(pre) = comp[pre + sep.len_utf8()..].parse() {
                             *comps[i + 1] = pre;
                             break;
                         }
